@@ -939,6 +939,8 @@ class Executor:
                     for o in olda]
         rk = self.kind_of(spec.returns)
         res = fresh(rk, "ret_" + fi.name)
+        for fact in basic_facts(res):
+            self.ctx.hyps.append(fact)
         sub.result = res
         defs = None
         if not spec.modifies and not spec.fresh and res.terms:
